@@ -111,6 +111,7 @@ type btrack struct {
 	incarnAcc  int
 	reinjected int
 	absentEpoch int
+	spray       *sprayState
 	subSeq      int // order of injection
 	reports     map[string]int
 	reportedDeleted bool
@@ -834,6 +835,8 @@ func (n *nodeSim) exec(op simk.Op) {
 		n.advance(time.Duration(op.N) * time.Millisecond)
 	case "restart":
 		n.opRestart(time.Duration(op.N) * time.Millisecond)
+	case "set_fail":
+		n.failRate = float64(op.N) / 100
 	case "faults_off":
 		n.faultsOff = true
 		n.faultsOffEpoch = n.epoch
@@ -933,6 +936,14 @@ func (n *nodeSim) opDeliver(op simk.Op) {
 	var wire []byte
 	if old := n.tracks[op.B]; old != nil {
 		// a duplicate: the very same bytes arrive again (possibly from another peer)
+		if !n.live(old) {
+			n.lg.Add("duplicate of %s not sent: its lifetime is over", sp.Tag)
+			return
+		}
+		if _, there := n.storeItem(old.id); !there {
+			// the node no longer holds it (delivered, forwarded and released, deleted): a fresh reception
+			old.spray = nil
+		}
 		wire = old.wire
 	} else {
 		b, err := n.buildBundle(sp)
@@ -1048,6 +1059,10 @@ func (n *nodeSim) opRestart(down time.Duration) {
 		return
 	}
 	n.onRestart()
+	for _, tr := range n.tracks {
+		// spray budgets live in memory only; the statement does not quantify over restarts
+		n.sprayOf(tr).unknown = true
+	}
 	_ = upBefore
 }
 
